@@ -578,8 +578,9 @@ fn run_loop_case(reds: &[RCfg], n_subs: usize, cap: usize, actions: &[Ac]) -> Op
         }
     }
     let m = store.get_metrics();
-    if m.action_received != actions.len() + 1 || m.action_reduced != actions.len() {
-        return Some(("O-C07-loop-inv-trace".into(), format!("action_received {} (incl. Exit), action_reduced {}", actions.len() + 1, actions.len()), format!("action_received {}, action_reduced {}", m.action_received, m.action_reduced)));
+    // whether the shutdown marker is booked as received is not part of the statement
+    if (m.action_received != actions.len() + 1 && m.action_received != actions.len()) || m.action_reduced != actions.len() {
+        return Some(("O-C07-loop-inv-trace".into(), format!("action_received {} (+1 if the marker is counted), action_reduced {}", actions.len(), actions.len()), format!("action_received {}, action_reduced {}", m.action_received, m.action_reduced)));
     }
     // C04: finality
     if store.dispatch(1).is_ok() {
